@@ -1257,3 +1257,46 @@ pub fn hash_str(s: &str) -> u64 {
     }
     crate::rng::mix(h)
 }
+
+/// A selection that asks for something the claims do not have: starting from `sel`, walk down the claims
+/// along a random chain of containers and, at the object where the walk stops, name a member that does not
+/// exist (as `true`, as a scalar, or as a nested selector). Objects WITHOUT hidden members are as likely to be
+/// the stopping point as any other.
+pub fn spoil_selection(r: &mut Rng, u: &Value, sel: &Value) -> Value {
+    match u {
+        Value::Object(m) => {
+            let mut out = sel.as_object().cloned().unwrap_or_default();
+            let containers: Vec<&String> = m.iter().filter(|(_, v)| v.is_object() || v.as_array().map(|a| a.iter().any(|e| e.is_object() || e.is_array())).unwrap_or(false)).map(|(k, _)| k).collect();
+            if containers.is_empty() || r.chance(35) {
+                let name = (*r.pick(&["no-such-member", "no-such-member", "zz", "", "_sd_x", "0", "cnf"])).to_string();
+                let name = if m.contains_key(&name) { format!("{name}#absent") } else { name };
+                let how = match r.below(5) {
+                    0 | 1 => Value::Bool(true),
+                    2 => json!("x"),
+                    3 => json!({"x": true}),
+                    _ => json!([true]),
+                };
+                out.insert(name, how);
+            } else {
+                let k = (*r.pick(&containers)).clone();
+                let below = spoil_selection(r, &m[&k], out.get(&k).unwrap_or(&Value::Null));
+                out.insert(k, below);
+            }
+            Value::Object(out)
+        }
+        Value::Array(a) => {
+            let mut out: Vec<Value> = sel.as_array().cloned().unwrap_or_default();
+            let idx: Vec<usize> = a.iter().enumerate().filter(|(_, e)| e.is_object() || e.is_array()).map(|(i, _)| i).collect();
+            if idx.is_empty() {
+                return sel.clone();
+            }
+            let i = *r.pick(&idx);
+            while out.len() <= i {
+                out.push(Value::Bool(false));
+            }
+            out[i] = spoil_selection(r, &a[i], &out[i].clone());
+            Value::Array(out)
+        }
+        _ => sel.clone(),
+    }
+}
